@@ -20,6 +20,11 @@ def run(ctx):
     r = C.run_harness(ctx, ["ige", "-toy", toy, "-terms", terms, "-seed", str(ctx.seed),
                             "-concretisations", "12" if thorough else "3"], timeout=1800)
     rep = json.loads(r.stdout)
+    # the wrappers and the key schedule from eight goroutines at once (senders encrypt while the receive loop decrypts)
+    crep = C.run_harness_phase(ctx, ["envelopeconc", "-seed", str(ctx.seed + 5), "-rounds", "20000" if thorough else "4000"],
+                               "process-died:concurrent", "encrypting and decrypting from eight goroutines", timeout=1800)
+    for d in (crep or {}).get("disagreements", []):
+        ctx.disagreement("concurrent:" + d["sig"].split(":", 1)[1], d["detail"], d["case"])
     for d in rep["disagreements"]:
         ctx.disagreement(d["sig"], d["detail"], d["case"])
     ncases = rep["extra"]["toy_cases"] + sum(1 for _ in open(terms))
